@@ -4,7 +4,7 @@ lending property's prefix; the files stay where they are)."""
 import copy, importlib.util, os
 
 
-def borrow(here_file, lender, names, prefix=None):
+def borrow(here_file, lender, names, prefix=None, slow=()):
     base = os.path.dirname(os.path.abspath(here_file))
     out = []
     ldir = os.path.join(base, "..", lender)
@@ -26,6 +26,12 @@ def borrow(here_file, lender, names, prefix=None):
             if lender not in lt:
                 lt.append(lender)
             c["loop_tables"] = lt
+            if h["name"] in slow:      # too slow for the borrower's quick tier
+                if c.get("cases"):
+                    for cc in c["cases"]:
+                        cc["tier"] = "thorough"
+                else:
+                    c["cases"] = [dict(id="default", tier="thorough")]
             out.append(c)
     missing = set(names) - {h["name"][len(prefix or lender.lower() + "_"):] for h in out}
     if missing:
